@@ -269,7 +269,20 @@ static std::string fsolve(int r, int cc, int m, const std::vector<double>& v, LD
 	for (int j = 0; j < m; j++) {
 		LD nx = 0, ex = 0;
 		for (int i = 0; i < cc; i++) { nx = std::max(nx, fabsl(xr[(size_t)i * m + j])); ex = std::max(ex, fabsl((LD)x(i, j) - xr[(size_t)i * m + j])); }
-		if (!(ex <= c * eps * cond * nx + LDBL_MIN)) return failmsg((tn + " solve x-reference").c_str(), ex, c * eps * cond * nx);
+		// Square systems: elimination with partial pivoting is backward stable, so |x^ - x| <= c eps cond(A) |x|.
+		// Over-determined systems are solved through the normal equations G x = A^T b, G = A^T A.  The right-hand side the code
+		// forms carries the rounding error |fl(A^T b) - A^T b| <= gamma_r |A|^T |b|, which is NOT small relative to |A^T b| when b is
+		// nearly orthogonal to the columns of A (then x itself is tiny); it propagates as G^-1 times that error.  The standard
+		// perturbation bound for the normal-equations method (Higham, Accuracy and Stability, 20.4) is therefore
+		//   |x^ - x| <= c eps ( cond(G) |x| + |G^-1| | |A|^T |b| | ),
+		// and the residual of the normal equations is at most |G| times that.
+		LD nab = 0, ni = 0;
+		if (r != cc) {
+			for (int i = 0; i < cc; i++) { LD t = 0; for (int k = 0; k < r; k++) t += fabsl(a[(size_t)k * cc + i]) * fabsl(bb[(size_t)k * m + j]); nab = std::max(nab, t); }
+			ni = norminf(cc, cc, gi);
+		}
+		LD bx = c * eps * (cond * nx + ni * nab);
+		if (!(ex <= bx + LDBL_MIN)) return failmsg((tn + " solve x-reference").c_str(), ex, bx);
 		// residual of the (normal) equations
 		if (r == cc) {
 			LD na = norminf(cc, cc, a), res = 0;
@@ -278,7 +291,7 @@ static std::string fsolve(int r, int cc, int m, const std::vector<double>& v, LD
 		} else {
 			LD ng = norminf(cc, cc, g), res = 0;
 			for (int i = 0; i < cc; i++) { LD s = -atb[(size_t)i * m + j]; for (int k = 0; k < cc; k++) s += g[(size_t)i * cc + k] * (LD)x(k, j); res = std::max(res, fabsl(s)); }
-			if (!(res <= c * eps * cond * ng * nx + LDBL_MIN)) return failmsg((tn + " lstsq AtA*x-Atb").c_str(), res, c * eps * cond * ng * nx);
+			if (!(res <= ng * bx + LDBL_MIN)) return failmsg((tn + " lstsq AtA*x-Atb").c_str(), res, ng * bx);
 		}
 	}
 	return "ok";
